@@ -28,6 +28,10 @@ Definition pkt_eqb (a b : pkt) : bool :=
   | PMe, PMe => true
   | PLink r1 s1 n1 c1, PLink r2 s2 n2 c2 => (r1 =? r2) && (s1 =? s2) && bytes_eqb n1 n2 && bytes_eqb c1 c2
   | POther t1 s1 r1, POther t2 s2 r2 => bytes_eqb t1 t2 && (s1 =? s2) && (r1 =? r2)
+  | PHistory r1 s1 m1, PHistory r2 s2 m2 =>
+    (* messages stored within one second are answered in no particular order *)
+    let sub a b := forallb (fun x => existsb (fun y => bytes_eqb (fst x) (fst y) && bytes_eqb (snd x) (snd y)) b) a in
+    (r1 =? r2) && (s1 =? s2) && (len m1 =? len m2) && sub m1 m2 && sub m2 m1
   | _, _ => false
   end.
 
@@ -74,6 +78,7 @@ Definition classify (o : op) (p : pkt) : N :=
   | PPresence _ _ _ _, OEnd _ => 8 |+| 16
   | PPresence _ _ _ _, _ => 16
   | PPresenceStatus _ _ _ _, _ => 16
+  | PHistory _ _ _, _ => 32
   | _, OEnd _ => 8
   | PMsg _ _, OSub _ _ _ => 4
   | _, _ => 2
@@ -87,6 +92,8 @@ Fixpoint replay_before_ack (l : list pkt) (seen_ack : bool) : bool :=
   | PMsg _ _ :: r => negb seen_ack && replay_before_ack r seen_ack
   | _ :: r => replay_before_ack r seen_ack
   end.
+
+Definition is_history (p : pkt) : bool := match p with PHistory _ _ _ => true | _ => false end.
 
 Record st := St { br : @broker trie; sp : @broker held; ok : bool; code : N }.
 
@@ -110,7 +117,9 @@ Definition check (c : case) : N :=
                                          |+| (match o with OSub _ _ _ => if i =? ci then bit (replay_before_ack ob false) 4 else 0 | _ => 0 end))
                                        judged 0 in
                             St b sb (ok s && forallb (fun i => mset_eqb (out_of b i) (nth (N.to_nat i) obs [])) judged)
-                               (code s |+| oc)
+                               (code s |+| oc
+                                (* the answers to history requests alone: model (trie instance) against the implementation *)
+                                |+| bit (forallb (fun i => mset_eqb (filter is_history (out_of b i)) (filter is_history (nth (N.to_nat i) obs []))) judged) 64)
                           end) steps (St (broker0 trie_ix subs) (broker0 held_ix subs) true 0) in
     let mine := filter (fun p => negb ((snd p =? watcher) || (snd p =? helper))) dump in
     let mp := pairs (t_root (b_trie (br s))) in
